@@ -367,7 +367,7 @@ func (m *Machine) jsonMarshal(fr *frame, v value, t types.Type, escapeHTML bool)
 			if e := res[1].(iface); e.t != nil {
 				panic(unsupported("json model: MarshalJSON returned an error"))
 			}
-			out = append(out, valuesToBytes(res[0].([]value))...)
+			out = append(out, m.jsonCompact(valuesToBytes(res[0].([]value)), escapeHTML)...)
 			return
 		}
 		if _, isPtr := t.Underlying().(*types.Pointer); !isPtr && hasMethod(types.NewPointer(t), "MarshalJSON") {
@@ -377,7 +377,7 @@ func (m *Machine) jsonMarshal(fr *frame, v value, t types.Type, escapeHTML bool)
 			if e := res[1].(iface); e.t != nil {
 				panic(unsupported("json model: MarshalJSON returned an error"))
 			}
-			out = append(out, valuesToBytes(res[0].([]value))...)
+			out = append(out, m.jsonCompact(valuesToBytes(res[0].([]value)), escapeHTML)...)
 			return
 		}
 		if hasMethod(t, "MarshalText") {
@@ -769,4 +769,69 @@ func (m *Machine) zeroTolerant(t types.Type) (v value) {
 		}
 	}()
 	return m.zero(t)
+}
+
+// jsonCompact mirrors what encoding/json does to the output of a MarshalJSON method: remove
+// insignificant whitespace and, with escapeHTML, write <, >, & and U+2028/U+2029 as \u escapes.
+// (Validation of the marshaller's output is not modelled: the marshallers reached emit valid JSON.)
+func (m *Machine) jsonCompact(bs []*Term, escapeHTML bool) []*Term {
+	var out []*Term
+	lit := func(s string) {
+		for i := 0; i < len(s); i++ {
+			out = append(out, m.T.Const(8, uint64(s[i])))
+		}
+	}
+	is := func(b *Term, c byte) bool { return m.decide(m.T.Eq(b, m.T.Const(8, uint64(c)))) }
+	inStr, esc := false, false
+	for i := 0; i < len(bs); i++ {
+		b := bs[i]
+		if escapeHTML {
+			switch {
+			case is(b, '<'):
+				lit("\\u003c")
+				esc = false
+				continue
+			case is(b, '>'):
+				lit("\\u003e")
+				esc = false
+				continue
+			case is(b, '&'):
+				lit("\\u0026")
+				esc = false
+				continue
+			}
+			if i+2 < len(bs) && is(b, 0xE2) && is(bs[i+1], 0x80) {
+				if is(bs[i+2], 0xA8) {
+					lit("\\u2028")
+					i += 2
+					continue
+				}
+				if is(bs[i+2], 0xA9) {
+					lit("\\u2029")
+					i += 2
+					continue
+				}
+			}
+		}
+		if inStr {
+			out = append(out, b)
+			switch {
+			case esc:
+				esc = false
+			case is(b, '\\'):
+				esc = true
+			case is(b, '"'):
+				inStr = false
+			}
+			continue
+		}
+		if is(b, ' ') || is(b, '\t') || is(b, '\n') || is(b, '\r') {
+			continue
+		}
+		if is(b, '"') {
+			inStr = true
+		}
+		out = append(out, b)
+	}
+	return out
 }
